@@ -72,6 +72,23 @@ theorem C08_fire_reaches_positions (s : State) (ch : Option Int) (ok : Bool)
     omega
   simp [this]
 
+/-- the statuses `tableGameOpen`'s retry loop takes for "a hand is already running" (regenerated from
+table_engine_stage.go): opened, playing, settled — `TB.inHandStatus`; in particular not `standby`, the status between hands -/
+theorem C08_retry_statuses_fact : Facts.retryRunningStatuses =
+    ["TableStateStatus_TableGameOpened", "TableStateStatus_TableGamePlaying", "TableStateStatus_TableGameSettled",
+     "isGameRunning := funk.Contains(gameStartingStatuses, te.table.State.Status)"] := by decide
+
+/-- **C08 — the retry loop tries again in earnest**: 3 s after a refused attempt, unless the table shows a hand by then,
+the blinds are still unset or a break has begun, the turn is `openGame` + `startGame` exactly as on the first attempt
+(between hands too: `standby` is not a hand status) — the outcome is again the seat manager's alone. -/
+theorem C08_retry_reaches_positions (s : State) (ch : Option Int) (ok : Bool)
+    (hh : inHandStatus s.status = false) (hs : s.blind.isSet = true) (hb : s.blind.isBreaking = false) :
+    retryOpen s ch ok = openCore s ch ok := by
+  unfold retryOpen
+  simp [hh, hs, hb]
+
+example : inHandStatus .standby = false ∧ inHandStatus .created = false ∧ inHandStatus .pausing = false := by decide
+
 /-- … and when the seat manager refuses, nothing but its waiting flags has changed (the engine retries) -/
 theorem C08_refused_by_positions (s : State) (ch : Option Int) (ok : Bool)
     (h : (openCore s ch ok).2 = .refused)
